@@ -1,1 +1,232 @@
 //! VMBinding instantiations used by the generic code under test (DESIGN.md §2.2, E6).
+//!
+//! Every call-back is `unimplemented!()` except the `ObjectModel` ones the kernels need; those
+//! read the harness tables below (set by the harness body before calling the code under test).
+
+use mmtk::util::copy::{CopySemantics, GCWorkerCopyContext};
+use mmtk::util::opaque_pointer::*;
+use mmtk::util::{Address, ObjectReference};
+use mmtk::vm::*;
+use mmtk::Mutator;
+
+/// Object table consulted by `get_current_size`: up to 4 (object address, size) pairs.
+pub static mut OBJ_TABLE: [(usize, usize); 4] = [(0, 0); 4];
+/// Address returned by `ObjectModel::copy` (C17) and number of calls made.
+pub static mut COPY_RESULT: usize = 0;
+pub static mut COPY_CALLS: usize = 0;
+/// Counters for `Collection` call-backs (C10).
+pub static mut OOM_CALLS: usize = 0;
+pub static mut BLOCK_FOR_GC_CALLS: usize = 0;
+/// Hook run inside `block_for_gc` (C10: stands for "a GC happened while blocked").
+pub static mut BLOCK_FOR_GC_HOOK: Option<fn()> = None;
+
+pub fn table_size(object: ObjectReference) -> usize {
+    let a = object.to_raw_address().as_usize();
+    unsafe {
+        if OBJ_TABLE[0].0 == a {
+            return OBJ_TABLE[0].1;
+        }
+        if OBJ_TABLE[1].0 == a {
+            return OBJ_TABLE[1].1;
+        }
+        if OBJ_TABLE[2].0 == a {
+            return OBJ_TABLE[2].1;
+        }
+        if OBJ_TABLE[3].0 == a {
+            return OBJ_TABLE[3].1;
+        }
+    }
+    // An object the harness did not declare: the smallest object.
+    16
+}
+
+#[macro_export]
+macro_rules! define_vm {
+    ($vm:ident, $om:ident, min = $min:expr, max = $max:expr, fill = $fill:expr, ref_offset = $roff:expr,
+     log = $log:expr, fwd_ptr = $fp:expr, fwd_bits = $fb:expr, mark = $mk:expr, pin = $pin:expr, los = $los:expr) => {
+        #[derive(Default)]
+        pub struct $vm;
+        pub struct $om;
+        impl VMBinding for $vm {
+            type VMObjectModel = $om;
+            type VMScanning = VMScanningImpl;
+            type VMCollection = VMCollectionImpl;
+            type VMActivePlan = VMActivePlanImpl;
+            type VMReferenceGlue = VMReferenceGlueImpl;
+            type VMSlot = mmtk::vm::slot::SimpleSlot;
+            type VMMemorySlice = mmtk::vm::slot::UnimplementedMemorySlice;
+            const ALIGNMENT_VALUE: u8 = $fill;
+            const MIN_ALIGNMENT: usize = $min;
+            const MAX_ALIGNMENT: usize = $max;
+        }
+        impl ObjectModel<$vm> for $om {
+            const GLOBAL_LOG_BIT_SPEC: VMGlobalLogBitSpec = $log;
+            const LOCAL_FORWARDING_POINTER_SPEC: VMLocalForwardingPointerSpec = $fp;
+            const LOCAL_FORWARDING_BITS_SPEC: VMLocalForwardingBitsSpec = $fb;
+            const LOCAL_MARK_BIT_SPEC: VMLocalMarkBitSpec = $mk;
+            #[cfg(feature = "object_pinning")]
+            const LOCAL_PINNING_BIT_SPEC: VMLocalPinningBitSpec = $pin;
+            const LOCAL_LOS_MARK_NURSERY_SPEC: VMLocalLOSMarkNurserySpec = $los;
+            const OBJECT_REF_OFFSET_LOWER_BOUND: isize = $roff as isize;
+            fn copy(_from: ObjectReference, _semantics: CopySemantics, _ctx: &mut GCWorkerCopyContext<$vm>) -> ObjectReference {
+                unsafe {
+                    COPY_CALLS += 1;
+                    ObjectReference::from_raw_address_unchecked(Address::from_usize(COPY_RESULT))
+                }
+            }
+            fn copy_to(_from: ObjectReference, _to: ObjectReference, _region: Address) -> Address {
+                unimplemented!()
+            }
+            fn get_current_size(object: ObjectReference) -> usize {
+                table_size(object)
+            }
+            fn get_size_when_copied(object: ObjectReference) -> usize {
+                table_size(object)
+            }
+            fn get_align_when_copied(_object: ObjectReference) -> usize {
+                $min
+            }
+            fn get_align_offset_when_copied(_object: ObjectReference) -> usize {
+                0
+            }
+            fn get_reference_when_copied_to(_from: ObjectReference, to: Address) -> ObjectReference {
+                unsafe { ObjectReference::from_raw_address_unchecked(to + ($roff as usize)) }
+            }
+            fn get_type_descriptor(_reference: ObjectReference) -> &'static [i8] {
+                unimplemented!()
+            }
+            fn ref_to_object_start(object: ObjectReference) -> Address {
+                object.to_raw_address().sub($roff as usize)
+            }
+            fn ref_to_header(object: ObjectReference) -> Address {
+                object.to_raw_address()
+            }
+            fn dump_object(_object: ObjectReference) {}
+        }
+        impl Scanning<$vm> for VMScanningImpl {
+            fn scan_roots_in_mutator_thread(_tls: VMWorkerThread, _mutator: &'static mut Mutator<$vm>, _factory: impl RootsWorkFactory<mmtk::vm::slot::SimpleSlot>) {
+                unimplemented!()
+            }
+            fn scan_vm_specific_roots(_tls: VMWorkerThread, _factory: impl RootsWorkFactory<mmtk::vm::slot::SimpleSlot>) {
+                unimplemented!()
+            }
+            fn scan_object<SV: SlotVisitor<mmtk::vm::slot::SimpleSlot>>(_tls: VMWorkerThread, _object: ObjectReference, _slot_visitor: &mut SV) {
+                unimplemented!()
+            }
+            fn notify_initial_thread_scan_complete(_partial_scan: bool, _tls: VMWorkerThread) {
+                unimplemented!()
+            }
+            fn supports_return_barrier() -> bool {
+                unimplemented!()
+            }
+            fn prepare_for_roots_re_scanning() {
+                unimplemented!()
+            }
+        }
+        impl Collection<$vm> for VMCollectionImpl {
+            fn stop_all_mutators<F>(_tls: VMWorkerThread, _mutator_visitor: F)
+            where
+                F: FnMut(&'static mut Mutator<$vm>),
+            {
+                unimplemented!()
+            }
+            fn resume_mutators(_tls: VMWorkerThread) {
+                unimplemented!()
+            }
+            fn block_for_gc(_tls: VMMutatorThread) {
+                unsafe {
+                    BLOCK_FOR_GC_CALLS += 1;
+                    if let Some(f) = BLOCK_FOR_GC_HOOK {
+                        f()
+                    }
+                }
+            }
+            fn spawn_gc_thread(_tls: VMThread, _ctx: GCThreadContext<$vm>) {
+                unimplemented!()
+            }
+            fn out_of_memory(_tls: VMThread, _err_kind: mmtk::util::alloc::AllocationError) {
+                unsafe {
+                    OOM_CALLS += 1;
+                }
+            }
+        }
+        impl ActivePlan<$vm> for VMActivePlanImpl {
+            fn number_of_mutators() -> usize {
+                unimplemented!()
+            }
+            fn is_mutator(_tls: VMThread) -> bool {
+                true
+            }
+            fn mutator(_tls: VMMutatorThread) -> &'static mut Mutator<$vm> {
+                unimplemented!()
+            }
+            fn mutators<'a>() -> Box<dyn Iterator<Item = &'a mut Mutator<$vm>> + 'a> {
+                unimplemented!()
+            }
+        }
+        impl ReferenceGlue<$vm> for VMReferenceGlueImpl {
+            type FinalizableType = ObjectReference;
+            fn set_referent(_reference: ObjectReference, _referent: ObjectReference) {
+                unimplemented!()
+            }
+            fn get_referent(_object: ObjectReference) -> Option<ObjectReference> {
+                unimplemented!()
+            }
+            fn clear_referent(_object: ObjectReference) {
+                unimplemented!()
+            }
+            fn enqueue_references(_references: &[ObjectReference], _tls: VMWorkerThread) {
+                unimplemented!()
+            }
+        }
+    };
+}
+
+pub struct VMScanningImpl;
+pub struct VMCollectionImpl;
+pub struct VMActivePlanImpl;
+pub struct VMReferenceGlueImpl;
+
+// All metadata on the side (the common production layout).
+const SIDE_FB: VMLocalForwardingBitsSpec = VMLocalForwardingBitsSpec::side_first();
+const SIDE_MK: VMLocalMarkBitSpec = VMLocalMarkBitSpec::side_after(SIDE_FB.as_spec());
+const SIDE_PIN: VMLocalPinningBitSpec = VMLocalPinningBitSpec::side_after(SIDE_MK.as_spec());
+const SIDE_LOS: VMLocalLOSMarkNurserySpec = VMLocalLOSMarkNurserySpec::side_after(SIDE_PIN.as_spec());
+
+// VmA: MIN 8 / MAX 8 (no extra alignment ever), no gap filling, object ref == object start.
+define_vm!(VmA, OmA, min = 8, max = 8, fill = 0, ref_offset = 0,
+    log = VMGlobalLogBitSpec::side_first(),
+    fwd_ptr = VMLocalForwardingPointerSpec::in_header(0),
+    fwd_bits = SIDE_FB, mark = SIDE_MK, pin = SIDE_PIN, los = SIDE_LOS);
+
+// VmB: MIN 4 / MAX 64, gap filling with 0xab, object ref 8 bytes after object start.
+define_vm!(VmB, OmB, min = 4, max = 64, fill = 0xab, ref_offset = 8,
+    log = VMGlobalLogBitSpec::side_first(),
+    fwd_ptr = VMLocalForwardingPointerSpec::in_header(0),
+    fwd_bits = SIDE_FB, mark = SIDE_MK, pin = SIDE_PIN, los = SIDE_LOS);
+
+// VmC: MIN 8 / MAX 4096, no gap filling.
+define_vm!(VmC, OmC, min = 8, max = 4096, fill = 0, ref_offset = 0,
+    log = VMGlobalLogBitSpec::side_first(),
+    fwd_ptr = VMLocalForwardingPointerSpec::in_header(0),
+    fwd_bits = SIDE_FB, mark = SIDE_MK, pin = SIDE_PIN, los = SIDE_LOS);
+
+// VmH: every per-object spec in the header word (bits 0-1 forwarding bits shared with the
+// forwarding pointer word, mark bit 2, pin bit 3, LOS 2 bits 4-5, log bit 6).
+define_vm!(VmH, OmH, min = 8, max = 8, fill = 0, ref_offset = 0,
+    log = VMGlobalLogBitSpec::in_header(6),
+    fwd_ptr = VMLocalForwardingPointerSpec::in_header(0),
+    fwd_bits = VMLocalForwardingBitsSpec::in_header(0),
+    mark = VMLocalMarkBitSpec::in_header(2),
+    pin = VMLocalPinningBitSpec::in_header(3),
+    los = VMLocalLOSMarkNurserySpec::in_header(4));
+
+// VmI: forwarding bits in a header byte *separate* from the forwarding pointer word
+// (bits at -8..-6, i.e. the byte before the header address), mark bit next to them.
+define_vm!(VmI, OmI, min = 8, max = 8, fill = 0, ref_offset = 0,
+    log = VMGlobalLogBitSpec::side_first(),
+    fwd_ptr = VMLocalForwardingPointerSpec::in_header(0),
+    fwd_bits = VMLocalForwardingBitsSpec::in_header(-8),
+    mark = VMLocalMarkBitSpec::in_header(-6),
+    pin = VMLocalPinningBitSpec::in_header(-5),
+    los = VMLocalLOSMarkNurserySpec::in_header(-4));
